@@ -678,6 +678,20 @@ func (vc *VC) checkInvariants(li *loopInfo, st *State, phis map[*ssa.Phi]Val, ki
 		}
 		vc.oblige(st, kind, fmt.Sprintf("L%d.%s@%d", li.ordinal, tag, vc.nextOrdinal(kind+fmt.Sprint(li.ordinal, i))), t, inv.Src)
 	}
+	if kind == "inv-init" {
+		// assertions about the state in which the loop is entered (not part of the invariant)
+		for i, c := range ls.Entry {
+			t, err := env.EvalBool(c.E)
+			if err != nil {
+				sfail("loop %d entry %q: %v", li.ordinal, c.Src, err)
+			}
+			tag := c.Tag
+			if tag == "" {
+				tag = fmt.Sprint(i)
+			}
+			vc.oblige(st, "loop-entry", fmt.Sprintf("L%d.%s@%d", li.ordinal, tag, vc.nextOrdinal("loop-entry"+fmt.Sprint(li.ordinal, i))), t, c.Src)
+		}
+	}
 }
 
 func (vc *VC) enterLoop(li *loopInfo, ins []*State, preds []*ssa.BasicBlock) *State {
@@ -699,9 +713,17 @@ func (vc *VC) enterLoop(li *loopInfo, ins []*State, preds []*ssa.BasicBlock) *St
 		for _, ph := range headerPhis {
 			phis[ph] = vc.operandOnEdge(ph, preds[i], h)
 		}
+		if vc.loopEntry == nil {
+			vc.loopEntry = map[int]*State{}
+		}
+		vc.loopEntry[li.ordinal] = s // atloop(N, e) during establishment: the state on this entry edge
 		vc.checkInvariants(li, s, phis, "inv-init")
 	}
 	merged := vc.mergeStates(ins)
+	if vc.loopEntry == nil {
+		vc.loopEntry = map[int]*State{}
+	}
+	vc.loopEntry[li.ordinal] = merged.clone() // atloop(N, e): the state in which the loop was entered
 	autoFrame := vc.contract != nil && vc.contract.HasMod
 	if autoFrame {
 		for _, fc := range vc.frameConds(merged) {
